@@ -6,3 +6,45 @@ package ontology
 
 //@ pure func (id ID) IsZero() bool
 //@ pure func (id ID) IsType() bool
+
+//@ # ---------------------------------------------------------------- C16: edge keys
+//@ pure func (id ID) String() string
+//@ pure func (r Relationship) GorpKey() string
+
+//@ # well-formed identifiers: the separators do not occur inside the parts (ID.Validate does not
+//@ # enforce this; it is the hypothesis under which the key scheme is exact)
+//@ spec func wfID(id ID) bool = id.Type != "" && id.Key != "" && !strings.Contains(string(id.Type), ":") && !strings.Contains(string(id.Type), "->") && !strings.Contains(id.Key, "->")
+//@ spec func wfRel(r Relationship) bool = wfID(r.From) && wfID(r.To) && !strings.Contains(string(r.Type), "->")
+
+//@ # the prefix/suffix handed to the relationship table selects exactly the outgoing / incoming
+//@ # edges of the resource (asserted at the call that receives it)
+//@ func (d dagWriter) retrieveOutgoingRelationships(ctx context.Context, key ID) (res []Resource, err error)
+//@   theory strings
+//@   requires wfID(key)
+//@   atcall WherePrefix forall r Relationship :: wfRel(r) ==> (strings.HasPrefix(r.GorpKey(), string(prefix)) == (r.From == key))
+//@   modifies *
+//@ func (d dagWriter) deleteOutgoingRelationships(ctx context.Context, from ID) (err error)
+//@   theory strings
+//@   requires wfID(from)
+//@   atcall WherePrefix forall r Relationship :: wfRel(r) ==> (strings.HasPrefix(r.GorpKey(), string(prefix)) == (r.From == from))
+//@   modifies *
+//@ func (d dagWriter) deleteIncomingRelationships(ctx context.Context, id ID) (err error)
+//@   theory strings
+//@   requires wfID(id)
+//@   atcall WhereRaw forall r Relationship :: wfRel(r) ==> (strings.HasSuffix(r.GorpKey(), string(suffix)) == (r.To == id))
+//@   modifies *
+//@ func (d dagWriter) DeleteOutgoingRelationshipsOfType(ctx context.Context, from ID, relationshipType RelationshipType) (err error)
+//@   theory strings
+//@   requires wfID(from) && !strings.Contains(string(relationshipType), "->")
+//@   atcall WherePrefix forall r Relationship :: wfRel(r) ==> (strings.HasPrefix(r.GorpKey(), string(prefix)) == (r.From == from && r.Type == relationshipType))
+//@   modifies *
+//@ func (d dagWriter) DeleteIncomingRelationshipsOfType(ctx context.Context, to ID, relationshipType RelationshipType) (err error)
+//@   theory strings
+//@   requires wfID(to) && !strings.Contains(string(relationshipType), "->")
+//@   atcall WhereRaw forall r Relationship :: wfRel(r) ==> (strings.HasSuffix(r.GorpKey(), string(suffix)) == (r.To == to && r.Type == relationshipType))
+//@   modifies *
+
+//@ lemma edgeKeyInjective(a Relationship, b Relationship)
+//@   theory strings
+//@   requires wfRel(a) && wfRel(b)
+//@   ensures (a.GorpKey() == b.GorpKey()) == (a == b)
